@@ -81,9 +81,10 @@ Definition net_poll (s : pstate) : net * option pdu * bytes * bytes * bool * boo
   | None =>
     match pending s with
     | _ :: _ =>
-        let got := take (maxlen s) (pending s) in
+        let rsize := if maxlen s =? 0 then 65536 else maxlen s in     (* recv(max_pdu_length or 65536) *)
+        let got := take rsize (pending s) in
         let buf := raw s ++ got in
-        let pend' := drop (maxlen s) (pending s) in
+        let pend' := drop rsize (pending s) in
         match frame_of buf with
         | Some (f, rest) => let (n, p) := classify f in (n, p, rest, pend', eof s, rst s)
         | None => (NNone, None, buf, pend', eof s, rst s)
